@@ -255,7 +255,9 @@ def build_goto(g, scratch, repo, mode='proof'):
         raise Undecided('goto-cc failed: ' + (out + err)[-1500:])
     # content key for the cache: preprocessed text
     rc2, pp, err2, _ = run(['gcc', '-E', '-P'] + [f for f in cc_flags(g, mode, wdir, repo)] + [harness], timeout=120)
-    key_src = pp if rc2 == 0 else open(harness).read() + str(time.time())
+    # the woven copy lives in a per-run scratch directory: __FILE__ inside the real sources would otherwise put that random
+    # path into the key and defeat the cache for every woven unit
+    key_src = pp.replace(scratch, '<scratch>') if rc2 == 0 else open(harness).read() + str(time.time())
     restr = {}
     if g['fp']:
         gb, restr = fp_restrictions(g, scratch, gb)
